@@ -45,7 +45,10 @@ class _BaseITML(MahalanobisMixin):
       X = np.unique(np.vstack(pairs), axis=0)
       # distances between distinct points only: the zero diagonal of the
       # distance matrix is not a distance between two training points
-      dists = pairwise_distances(X)[np.triu_indices(X.shape[0], k=1)]
+      # (of the centred points: the distances are translation invariant,
+      # their evaluation through squared norms far from the origin is not)
+      dists = pairwise_distances(X - X.mean(axis=0))[
+          np.triu_indices(X.shape[0], k=1)]
       self.bounds_ = np.percentile(dists, (5, 95))
     else:
       bounds = check_array(bounds, allow_nd=False, ensure_min_samples=0,
